@@ -31,10 +31,10 @@ pub fn gen_meta(rng: &mut Rng) -> Vec<u8> {
             1 => "vector_layers".to_string(),
             2 => format!("k{}", rng.below(100)),
             3 => ["ü\"\\\n", "\u{1f600}", "k\u{20000}\u{10ffff}", "\u{7f}\u{80}\u{7ff}\u{800}\u{ffff}\u{10000}"][rng.below(4) as usize].to_string(),
-            4 => String::new(),
+            4 => ["", "json", "JSON", "tilejson"][rng.below(4) as usize].to_string(),
             _ => format!("attribution{i}"),
         };
-        let v = match rng.below(9) {
+        let v = match rng.below(10) {
             0 => serde_json::Value::Null,
             1 => serde_json::Value::Bool(rng.chance(1, 2)),
             2 => serde_json::json!(rng.next() as i64),
@@ -43,6 +43,7 @@ pub fn gen_meta(rng: &mut Rng) -> Vec<u8> {
             5 => serde_json::json!({"b": {"c": [true, false]}, "a": "x"}),
             6 => serde_json::json!(0.5),
             7 => serde_json::json!(format!("\u{1f30d} {} \u{2a6df}\u{e9}\u{0}\u{1f}", rng.below(1000))),
+            8 => serde_json::json!("{\"vector_layers\":[],\"name\":\"x\"}"),
             _ => serde_json::json!(format!("s{}", rng.below(1000))),
         };
         m.insert(k, v);
@@ -462,7 +463,8 @@ pub fn gen_foreign(rng: &mut Rng, o: &ForeignOpts, st: &mut Stats) -> Foreign {
         root_len: root.len() as u64,
         meta_off: if meta_sec.is_empty() && rng.chance(1, 2) { 0 } else { offs[1] },
         meta_len: meta_sec.len() as u64,
-        leaf_off: offs[2],
+        // (an empty section's offset means nothing: half of the archives without leaves record 0 there)
+        leaf_off: if leaf_sec.is_empty() && rng.chance(1, 2) { 0 } else { offs[2] },
         leaf_len: leaf_sec.len() as u64,
         data_off: offs[3],
         data_len: data.len() as u64,
@@ -475,9 +477,11 @@ pub fn gen_foreign(rng: &mut Rng, o: &ForeignOpts, st: &mut Stats) -> Foreign {
         ttype: rng.below(6) as u8,
         minz: rng.below(256) as u8,
         maxz: rng.below(256) as u8,
-        coords: [rng.next() as i32, rng.next() as i32, 21, -21, i32::MIN, i32::MAX],
+        // (a third of the archives: a centre of exactly 0/0 at zoom 0 inside bounds that do not contain it)
+        coords: if rng.chance(1, 3) { [100_000_000, 200_000_000, 500_000_000, 800_000_000, 0, 0] } else { [rng.next() as i32, rng.next() as i32, 21, -21, i32::MIN, i32::MAX] },
         cz: rng.below(256) as u8,
     };
+    let h = if h.coords[4] == 0 && h.coords[5] == 0 { SHeader { cz: 0, ..h } } else { h };
     file[0..127].copy_from_slice(&spec::encode_header(&h));
     st.bump(&format!("foreign_depth_{depth}"));
     if o.multi_frame && o.icomp != 1 {
